@@ -5,10 +5,20 @@
    the loop drains ((Append *config.steps)). *)
 From Coq Require Import String.
 From Gen Require Import Skeletons.
-From GW Require Import Verified.
+From GW Require Import Verified VerifiedBodies.
 
 Lemma plan_generatePlans_skeleton : gen_plan_generatePlans = verified_plan_generatePlans.
 Proof. reflexivity. Qed.
 
 Lemma plan_extractSelection_skeleton : gen_plan_extractSelection = verified_plan_extractSelection.
+Proof. reflexivity. Qed.
+
+(* bodies with their conditions (VerifiedBodies.v) *)
+Lemma plan_extractSelection_cond_body : gen_plan_extractSelection_cond = verified_plan_extractSelection_cond.
+Proof. reflexivity. Qed.
+
+Lemma plan_generatePlans_cond_body : gen_plan_generatePlans_cond = verified_plan_generatePlans_cond.
+Proof. reflexivity. Qed.
+
+Lemma plan_Plan_body : gen_plan_Plan = verified_plan_Plan.
 Proof. reflexivity. Qed.
